@@ -89,11 +89,29 @@ Theorem C01_validity_tables_match_rust_port_kind_out : forall o off, (off <? cou
 Proof. exact kind_out_matches. Qed.
 Print Assumptions C01_validity_tables_match_rust_port_kind_out.
 
-(* Rule 8 demands a link for exactly the input ports validate_port demands one for. *)
-Theorem C01_validity_tables_match_rust_inputs : forall o off k, kind_in o off = Some k ->
-  (off <? base_in o)%N = negb (smem (kname k) rs_unconnected_ok_kinds).
-Proof. exact inputs_must_connect_matches. Qed.
-Print Assumptions C01_validity_tables_match_rust_inputs.
+(* Rule 8, for every graph: every incoming port the operation has, whose kind is not one of rs_unconnected_ok_kinds
+   (StateOrder, ControlFlow: validate_port's must_be_connected), has exactly one link (Rust: at least one). *)
+Theorem C01_validity_tables_match_rust_inputs_once : forall g,
+  r_inputs_once g =
+  forallb (fun x => (fst x =? 0)%N ||
+     forallb (fun off => match kind_in (n_op (snd x)) off with
+                         | Some k => smem (kname k) rs_unconnected_ok_kinds || (links_into (redges g) (fst x) off =? 1)%N
+                         | None => true
+                         end) (upto (N.to_nat (count_in (n_op (snd x)))))) (indexed (g_nodes g)).
+Proof. exact r_inputs_once_matches. Qed.
+Print Assumptions C01_validity_tables_match_rust_inputs_once.
+
+(* Rule 9, for every graph: every outgoing port the operation has, whose kind is a non-copyable value
+   (EdgeKind::is_linear) or one of rs_linear_out_extra_kinds (ControlFlow: outgoing_is_linear), has exactly one link. *)
+Theorem C01_validity_tables_match_rust_linear_once : forall tys g,
+  r_linear_once tys g =
+  forallb (fun x => (fst x =? 0)%N ||
+     forallb (fun off => match kind_out (n_op (snd x)) off with
+                         | Some k => negb (r_linear tys k) || (links_from (redges g) (fst x) off =? 1)%N
+                         | None => true
+                         end) (upto (N.to_nat (count_out (n_op (snd x)))))) (indexed (g_nodes g)).
+Proof. exact r_linear_once_matches. Qed.
+Print Assumptions C01_validity_tables_match_rust_linear_once.
 
 (* The rows of df_sig / inner_sig are the rows `fn signature` / `fn inner_signature` build from the struct fields; a type
    built by Type::new_sum / Type::new_function is the id rule 4 checks against the table. *)
